@@ -21,6 +21,12 @@ RULE = ('every statement form x {filter, event, inbox, console} x {marker probe,
         'native callbacks}; every UNSAFE live function as callback of every callback-taking safe Array method through GetFilterTargets '
         '(without and with a permission filter) and event filters; every live type as constructor; every no_user_view field of every '
         'type with a live object, dotted and as bare identifier after `using <object>`; hidden globals. '
+        'WRITERS x POSITIONS x LEFT-HAND SIDES: Set with every operator (= += -= *= /= %= ^= &= |=) x 19 left-hand sides (bare identifier, string key, this.x, '
+        'locals.x, globals.x, get_object(..).attr, get_objects(T)[0].vars.k, live container attributes, *ref, array-literal root) and const / var / namespace / '
+        'function / use / for / while / apply / object / template / include / import / library / using, as statement, dictionary member (direct, after/before a '
+        'sibling, nested 2-3 deep, inside an array), if / else / else-if / try / except / lambda / closure / loop / namespace bodies, the dictionary literal placed in 44 '
+        'expression contexts (array element, argument of natives, conditions, both sides of && || ?: in ==, receiver, index, throw, use, using, deref, '
+        'constructor argument, callback and receiver element of every higher-order safe native): any snapshot difference = changed:<construct>@<position>. '
         'PURITY: every function registered side-effect-free x every argument position and `this` x 28 live shared containers/objects (unsorted / '
         'duplicate / nested / empty / length-1 arrays, arrays of dictionaries and of arrays, dictionaries, namespaces, config objects, a type, a '
         'function, a reference, as attributes of the Host - vars.*, groups - and as globals) x fillers for the other positions, every '
@@ -38,7 +44,10 @@ TRUSTED = ['model: coq/Sandbox/SbModel.v (effect-level semantics, one constructo
            '(cross-checked: declared const in the headers, own bodies analysed), PURE_CALLEES (by name: Utility::Match, JsonEncode, Array::FromSet, '
            'ConfigItem::GetItems, std:: algorithms, ...), FRESH_METHODS; declarations recognised syntactically; macros not expanded; implicit '
            'conversions (Value -> String) not seen; self-test of 5 pure and 19 mutating idioms on every run',
-           'source facts re-extracted each run by tools/facts_c19.py (regular expressions over expression.cpp, vmops.hpp, *-script.cpp, '
+           'conditional sandbox guards (`Sandboxed && <cond>`): not counted as guards; the one condition the model interprets is a bool member of SetExpression whose only '
+           'assignment is `= (scopeSpec == ScopeThis)` in BindToScope (recognised syntactically) = "member of a dictionary literal"; sb_bind_scope is a hand transcription of '
+           'BindToScope, tied by the facts f_sb_bind_to_scope_shape / f_sb_dict_members_bound and by the writer-position probes',
+           'source facts re-extracted each run by tools/facts_c19.py (regular expressions over expression.cpp, config_parser.yy, vmops.hpp, *-script.cpp, '
            'REGISTER_*FUNCTION, *.ti, object.cpp, reference.cpp, scriptframe.cpp, filterutility/eventqueue/consolehandler.cpp) -> coq/Facts/Facts_c19.v',
            'harness/ops_sb.cpp: deep snapshot (global namespace recursively, all fields of all config objects, config item registry, '
            'apply rules, type prototypes, scratch directory listing+SHA1, console session locals)']
